@@ -711,8 +711,11 @@ def write_evidence(prop, tier, verif_seed, module, results, agg, det, known_seen
         "wall_s": round(wall, 2),
         "violations": len(new_violations),
     }
-    os.makedirs(os.path.join(VERIF, "evidence"), exist_ok=True)
-    with open(os.path.join(VERIF, "evidence", f"{prop}.json"), "w") as fh:
+    # development aid PPSIM_REPO (checks run against a scratch tree): that is not evidence about /repo
+    ev_dir = os.path.join(VERIF, "evidence") if not os.environ.get("PPSIM_REPO") else \
+        os.path.join(VERIF, "replays", "scratch-evidence")
+    os.makedirs(ev_dir, exist_ok=True)
+    with open(os.path.join(ev_dir, f"{prop}.json"), "w") as fh:
         json.dump(ev, fh, indent=1, sort_keys=True, default=str)
 
 
